@@ -9,7 +9,7 @@ from ..terms import A, C, F, V, L, NIL, term_size, pp as show_term
 
 ID = 'C02'
 LEVEL = 'model_checking'
-RULE = ('(l) every ordered pair of a 56-term universe with wide (3, 5, 8 arguments), nested, deep (6 levels) and flat-but-growing terms (values that become deep through the bindings the unification itself makes, under one and two wrappers) under every second recursion limit from the caller\'s depth + 6 to + 98: the unification raises RecursionError or has exactly the reference outcome; (r) one engine and the same three variables through ALL ordered pairs of a 33-term universe in 8 (thorough 32) rotations, each unification run to the end and closed - also the cyclic ones, whose outcome is not judged - nothing may be left behind and every result must be the reference result; (p) every ordered pair (t1,t2) of the term universe (quick: all terms of depth <=1 over variables X,Y,Z, '
+RULE = ('(c) every term of the universe and a copy of it (copy.deepcopy, copy.copy, pickle round trip; also made under an active binding) unify exactly once in both orders, denote the same term afterwards and leave nothing bound; (l) every ordered pair of a 56-term universe with wide (3, 5, 8 arguments), nested, deep (6 levels) and flat-but-growing terms (values that become deep through the bindings the unification itself makes, under one and two wrappers) under every second recursion limit from the caller\'s depth + 6 to + 98: the unification raises RecursionError or has exactly the reference outcome; (r) one engine and the same three variables through ALL ordered pairs of a 33-term universe in 8 (thorough 32) rotations, each unification run to the end and closed - also the cyclic ones, whose outcome is not judged - nothing may be left behind and every result must be the reference result; (p) every ordered pair (t1,t2) of the term universe (quick: all terms of depth <=1 over variables X,Y,Z, '
         'atoms a,b,[], Python constants 1, 1000003, \'str\' (passed as equal but distinct objects) and None, 0, the empty string, -1, -2, 2**61-1 (pairs with colliding Python hashes) (at top level and as arguments of f/1, f/2), two-cell list-shaped terms whose cells are named . or f, wide compounds f/10 f/11 f/12 p/21 next to f1/0 f1/2 p2/1, functors f/0 a/0 (compound terms without arguments, distinct from the atoms) f/1 f/2 g/1 ./2; thorough: additionally all terms of depth <=2 with <=4 symbols under the 6 menu stacks) '
         'x every stack of earlier, still suspended unifications from the menu (quick: 6 stacks; thorough: the depth<=1 universe under every '
         'stack of <=2 equations out of 8 that is consistent and acyclic) x every point of the stack at which the unify generator is CREATED (it is always advanced under the whole stack). For each: number of yields, canonical '
@@ -99,9 +99,9 @@ def stacks(tier):
 
 def plan(tier):
     if tier == 'quick':
-        return [('quick', 'quick', k, 16) for k in range(16)] + [('reuse', k, 8) for k in range(8)] + [('limits', k, 16) for k in range(16)]
+        return [('quick', 'quick', k, 16) for k in range(16)] + [('reuse', k, 8) for k in range(8)] + [('limits', k, 16) for k in range(16)] + [('copies',)]
     # thorough = (depth<=2 universe x the 6 menu stacks) + (depth<=1 universe x all stacks of <=2 equations)
-    return [('thorough', 'quick', k, 256) for k in range(256)] + [('quick', 'thorough', k, 64) for k in range(64)] + [('reuse', k, 32) for k in range(32)] + [('limits', k, 16) for k in range(16)]
+    return [('thorough', 'quick', k, 256) for k in range(256)] + [('quick', 'thorough', k, 64) for k in range(64)] + [('reuse', k, 32) for k in range(32)] + [('limits', k, 16) for k in range(16)] + [('copies',)]
 
 
 def has_dot(t):
@@ -382,7 +382,86 @@ def run_limits(k, n, acc):
                 acc.outcome(('limit', exp))
 
 
+# ---- copies of terms --------------------------------------------------------------------------------
+# A copy of a term made with the standard copy module (or sent through pickle) is a term of its own:
+# its variables are other variables.  A term and its copy are variants of each other, so they unify
+# (once), afterwards both denote the same term, and when the unification is undone all variables of
+# both are unbound again.  Also under bindings that are active when the copy is made.
+def copy_modes():
+    import copy
+    import pickle
+    return [('copy.deepcopy', copy.deepcopy), ('copy.copy', copy.copy), ('pickle', lambda t: pickle.loads(pickle.dumps(t)))]
+
+
+def check_copy(t, mode, fn, order, pre):
+    yp = impl.YP()
+    vm = {}
+    vs = [impl.to_engine(yp, v, vm) for v in (X, Y, Z)]
+    e = impl.to_engine(yp, t, vm)
+    held = None
+    if pre:
+        held = iter(impl.engine.unify(vs[1], yp.atom('b')))     # Y = b is active when the copy is made
+        next(held)
+    try:
+        c = fn(e)
+    except Exception:  # noqa: BLE001 - a term that cannot be copied that way is no case
+        if held:
+            held.close()
+        return ('skip', 'not copyable')
+    if c is e:
+        if held:
+            held.close()
+        return ('skip', 'the copy is the same object')
+    before = impl.observe(vs + [e])
+    g = iter(impl.engine.unify(e, c) if order == 0 else impl.engine.unify(c, e))
+    n = 0
+    same = None
+    for _ in g:
+        n += 1
+        both = impl.observe([e, c])      # observed TOGETHER: the same variables get the same numbers
+        same = (both[0], both[1])
+        if n > 1:
+            break
+    if hasattr(g, 'close'):
+        g.close()
+    after = impl.observe(vs + [e])
+    if held:
+        held.close()
+    what = '%s of %s%s, unify(%s)' % (mode, show_term(t), ' made while Y = b' if pre else '', 'term, copy' if order == 0 else 'copy, term')
+    if n != 1:
+        return ('violation', 'copies:term-and-its-copy-do-not-unify-once', '%s: %d answers (a term and a copy of it are variants: exactly one)' % (what, n))
+    if same[0] != same[1]:
+        return ('violation', 'copies:not-the-same-term-after-unification', '%s: afterwards the term is %r and the copy is %r' % (what, same[0], same[1]))
+    if after != before:
+        return ('violation', 'copies:bindings-left-behind', '%s: after the unification was undone (X,Y,Z,term) read %s, before %s' % (what, show_obs(after), show_obs(before)))
+    return ('ok', mode)
+
+
+def run_copies(acc):
+    U = [t for t in universe('quick')]
+    for ti, t in enumerate(U):
+        for mode, fn in copy_modes():
+            for order in (0, 1):
+                for pre in (False, True):
+                    acc.n['evaluations'] += 1
+                    r = check_copy(t, mode, fn, order, pre)
+                    if r[0] == 'skip':
+                        acc.skipped[r[1]] += 1
+                        continue
+                    acc.n['validated'] += 1
+                    acc.n['transitions'] += 2
+                    if r[0] == 'violation':
+                        acc.violation(r[1], (9, ti, order), {'copy': [_j(t), mode, order, pre]}, r[2], key='copy|%s|%s|%d|%s' % (show_term(t), mode, order, pre))
+                        continue
+                    acc.n['nontrivial'] += 1
+                    acc.outcome(('copy', mode))
+
+
 def run_shard(spec):
+    if spec[0] == 'copies':
+        acc = Acc()
+        run_copies(acc)
+        return acc
     if spec[0] == 'limits':
         acc = Acc()
         run_limits(spec[1], spec[2], acc)
@@ -428,6 +507,10 @@ def run_shard(spec):
 
 
 def replay(case):
+    if 'copy' in case:
+        t, mode, order, pre = case['copy']
+        r = check_copy(_t(t), mode, dict(copy_modes())[mode], order, pre)
+        return [(r[1], r[2])] if r[0] == 'violation' else []
     if 'limits' in case:
         import sys
         t1, t2, dl = _t(case['limits'][0]), _t(case['limits'][1]), case['limits'][2]
